@@ -78,6 +78,9 @@ var defaultPasswordPolicy = refRules{MinLength: 8, MinNumeric: 1, MinSymbols: 1,
 // bcryptCanon is the key stream bcrypt actually uses: the first 72 bytes of
 // the cyclic repetition of password||0x00.
 func bcryptCanon(pw string) string {
+	if customHasherOn {
+		return pw // the application's hasher digests every byte
+	}
 	k := append([]byte(pw), 0)
 	out := make([]byte, 72)
 	for i := range out {
